@@ -284,9 +284,9 @@ def main():
                 mine = {"error": f"{type(e).__name__}: {e}"}
             r = real[name]
             if "error" in r and "error" in mine:
-                # both raise: the exception class and the leading words of the message must agree
-                rk, rm = r["error"].split(": ", 1)
-                if not (mine["error"].startswith("raise: " + rk) and rm[:30] in mine["error"]):
+                # both raise: the exception class must agree (message texts vary with the torch version)
+                rk = r["error"].split(": ", 1)[0]
+                if not mine["error"].startswith("raise: " + rk):
                     failures.append((name, rep, mine["error"], r["error"]))
                 continue
             if "error" in r or "error" in mine:
